@@ -147,6 +147,13 @@ func (c *c09World) close() {
 
 // open creates the socket; ok=false when the stack refuses it (incompatible with what is open).
 func (c *c09World) open(spec c09Spec) bool {
+	ok := c.open2(spec)
+	c.r.w.Settle()
+	return ok
+}
+
+// open2 is open without waiting for the world to settle.
+func (c *c09World) open2(spec c09Spec) bool {
 	proto := tcpip.TransportProtocolNumber(udp.ProtocolNumber)
 	if spec.TCP {
 		proto = tcp.ProtocolNumber
@@ -168,7 +175,6 @@ func (c *c09World) open(spec c09Spec) bool {
 			return false
 		}
 	}
-	c.r.w.Settle()
 	c.socks = append(c.socks, &c09Sock{spec: spec, ep: sk.EP})
 	return true
 }
@@ -975,7 +981,7 @@ func c09Jobs(tier string) []string {
 	for name := range c09Progs {
 		jobs = append(jobs, "coop:"+name)
 	}
-	jobs = append(jobs, "shadow", "dual")
+	jobs = append(jobs, "shadow", "dual", "relisten")
 	return jobs
 }
 
@@ -1008,6 +1014,23 @@ func c09Run(job, tier string, deadline time.Time) *engine.Result {
 			}
 		}
 		r.Sample(map[string]interface{}{"dual": "UDP sockets of kinds " + strings.Join(c09DualNames(), ", ") + " alone and in ordered pairs; one IPv4 and one IPv6 datagram to port P"})
+		return r
+	}
+	if job == "relisten" {
+		for a := range c09RelistenKinds {
+			for b := range c09RelistenKinds {
+				for _, hold := range []bool{false, true} {
+					f, probes := c09Relisten(a, b, hold)
+					r.Execs++
+					r.Transitions += int64(probes) + 3
+					r.Nontrivial++
+					if f != nil && len(r.Violations) < 4 {
+						r.Violations = append(r.Violations, engine.Violation{Property: "C09", Kind: "demux", Key: f.key, Detail: f.msg, Job: job, Replay: engine.MustJSON(map[string]interface{}{"relisten": []int{a + 1, b + 1}, "hold": hold})})
+					}
+				}
+			}
+		}
+		r.Sample(map[string]interface{}{"relisten": "a socket of kind {tcpL*:P, tcpLA1:P, udp*:P, udpA1:P} is closed and a successor of each kind is opened on the port, before and after the closed listener's goroutine has finished; then the full probe set"})
 		return r
 	}
 	if job == "shadow" {
@@ -1147,6 +1170,16 @@ func c09Replay(rp json.RawMessage) *engine.Violation {
 	}
 	if json.Unmarshal(rp, &du) == nil && len(du.Dual) == 2 {
 		if f, _ := c09Dual(du.Dual[0], du.Dual[1]); f != nil {
+			return &engine.Violation{Property: "C09", Kind: "demux", Key: f.key, Detail: f.msg}
+		}
+		return nil
+	}
+	var rl struct {
+		Relisten []int `json:"relisten"`
+		Hold     bool  `json:"hold"`
+	}
+	if json.Unmarshal(rp, &rl) == nil && len(rl.Relisten) == 2 {
+		if f, _ := c09Relisten(rl.Relisten[0]-1, rl.Relisten[1]-1, rl.Hold); f != nil {
 			return &engine.Violation{Property: "C09", Kind: "demux", Key: f.key, Detail: f.msg}
 		}
 		return nil
